@@ -82,7 +82,7 @@ def run(ctx):
     ctx.cov["rule"] = ("acyclic automata (determinisation terminates) with shared prefixes, unequal rational weights, epsilon arcs, several initial states and dead states x all strings up to the longest path: "
                        "determinize / min_det / push / trim / trim_vals: values vs the Coq reference m(xs); each result is read back and (a) re-evaluated by the Coq model, (b) checked by the Coq checkers: deterministic (single initial state, no epsilon, <=1 arc per state and symbol), "
                        "stochastic (outgoing + final mass of every live state = 1), trim (every state accessible and co-accessible); non-trivial = non-zero weight")
-    ok, out = ctx.build(["proofs/DetProofs.vo", "proofs/TrimWProofs.vo", "proofs/TrimSearchProofs.vo", "proofs/WfsaProofs.vo", "model/Det.vo", "model/EpsSpec.vo", "model/TrimSearch.vo"])
+    ok, out = ctx.build(["proofs/DetProofs.vo", "proofs/TrimWProofs.vo", "proofs/TrimSearchProofs.vo", "proofs/DetCheckerProofs.vo", "proofs/CompareSpecs.vo", "proofs/WfsaProofs.vo", "model/Det.vo", "model/EpsSpec.vo", "model/TrimSearch.vo"])
     if ok:
         ctx.prove("props/C13.v")
     else:
